@@ -177,5 +177,10 @@ CLAIMS['C09'] = {
   'note': _TB + 'String lengths are case parameters on stated grids (including 0, 1, 254, 255; shorter grids for the quadratic functions); string space uses a DataSegment stand-in; the statement wrappers DataSegment.mid_/lset_/rset_ are not covered.',
 }
 
+CLAIMS['C41'] = {
+  'text': 'Third clause only (the double-byte converter). Proof, with the lead-byte set, trail-byte set, preserve set and box-drawing relation as uninterpreted predicates (so for every shipped and every future codepage): for every well-formed converter state and every byte, Converter._process emits sequences that followed by the new buffer are exactly the old buffer followed by the byte, keeps the representation invariant, never reaches the "buffer corrupted" branches, emits only 1- or 2-byte sequences; _flush empties the buffer; _mark is structurally a fold of _process, and directly: _mark(s, flush) concatenates back to s and converting s[:k] then s[k:] emits the same sequences and ends in the same state as converting s at once, with and without box protection, for all symbolic strings up to 4 bytes (6 thorough) and every split.',
+  'note': _TB + 'Clauses one and two (table round trips for each shipped codepage: Codepage.__init__, unicode_to_bytes, bytes_to_unicode) are NOT decided: they are enumerations of data tables and unicodedata.normalize, outside contract-based deduction. The unbounded-length statement rests on the per-step invariant plus the structural fold check of _mark.',
+}
+
 NOT_APPLICABLE = {
 }
